@@ -47,6 +47,14 @@ FILE *c_fileMustOpen(FileName fn, IOMode mode)
 	__CPROVER_requires(PRE_fileMustOpen)
 	__CPROVER_ensures(POST_fileMustOpen(__CPROVER_return_value))
 	__CPROVER_assigns(C18_GHOST_FRAME);
+/* file.c:fileClose(stream, fn): closes the stream exactly once; if it RETURNS, no write/flush on the stream had
+ * failed and the close itself succeeded -- otherwise the failure went to the error handler (reported, no return) */
+#define PRE_fileClose(f)   ((f) == &v_stream[0] && g_open[0] && g_nopen == 1 && g_reported == 0)
+#define POST_fileClose     (!g_open[0] && !g_err[0] && !g_io_failed && g_reported == 0)
+void c_fileClose(FILE *stream, FileName fn)
+	__CPROVER_requires(PRE_fileClose(stream))
+	__CPROVER_ensures(POST_fileClose)
+	__CPROVER_assigns(C18_GHOST_FRAME);
 /* replaced (ASSUMED): creates missing directories, performs no stream I/O; if it could not, fopen fails */
 void c_fileEnsureDirectory(FileName fileName)
 	__CPROVER_requires(1)
@@ -65,15 +73,22 @@ void c_fileEnsureDirectory(FileName fileName)
 /* call site (emitTheIntermed): lib = libWrite(fn) = libNew(fn, rdOnly=false, fileWubOpen(fn), 0): a live
  * struct lib in write mode whose file is the one open output stream, no foam unit cached (only the
  * readers set unitb); section writers may already have failed (g_io_failed / error indicator arbitrary) */
+#if defined(V_FAIL_NEVER) && !defined(C18_PENDING_ALLOWED)	/* sanity variant: no I/O failure inside libClose AND none pending from the section writers */
+# define PRE_libClose_sanity	&& g_io_failed == 0
+#else
+# define PRE_libClose_sanity
+#endif
 #define PRE_libClose(lib) \
 	(__CPROVER_is_fresh(lib, sizeof(*(lib))) && (lib)->rdOnly == 0 && (lib)->unitb == 0 && \
 	 (lib)->file == &v_stream[0] && g_nopen == 1 && g_open[0] && !g_open[1] && !g_open[2] && !g_open[3] && \
-	 g_reported == 0)
+	 g_reported == 0 && (g_io_failed ? g_err[0] : 1) /* ghost invariant of the I/O model: a failed write on the one open stream left its sticky error indicator set */ \
+	 PRE_libClose_sanity)
 void c_libClose(Lib lib)
 	__CPROVER_requires(PRE_libClose(lib))
 	__CPROVER_ensures(POST_io_reported)		/* clause 1: failed write/flush/close of the .ao is reported */
 	__CPROVER_ensures(V_NOPEN_NOW() == 0)		/* clause 2: the file is closed */
 	__CPROVER_ensures(POST_ghost_monotone)		/* clause 3: ghost flags are sticky */
+	__CPROVER_ensures(!g_io_failed)			/* clause 4: if libClose RETURNS, no write/flush/close of the .ao failed (a failure is fatal) */
 	__CPROVER_assigns(__CPROVER_object_whole(lib), C18_GHOST_FRAME);
 
 
